@@ -31,6 +31,7 @@ LEVEL_TEXT = (
     "Bounded exploration with an exhaustive row domain: every generated predicate/expression is evaluated on all rows "
     "of {-2..2}^2 x {False,True}; all connective shapes to depth 2 over a 4-atom alphabet are enumerated completely "
     "(arity <= 3 at depth 1, <= 2 at depth 2); deeper shapes are sampled."
+    "  Selection and flattening equivalence are also evaluated on rows holding not-a-number values."
 )
 LEVEL_NOTE = "trusts: reference evaluator in vf/core/expr.py; the iteration engine's convert_* callables are the subject, not the oracle"
 RULE = (
